@@ -156,19 +156,19 @@ macro_rules! const_subs {
     ($v:ident, $q:expr, $m:path, 32, $name:literal) => { const_subs!(@ $v, $q, $m, 32, 64, $name) };
     (@ $v:ident, $q:expr, $m:path, $n:literal, $w:literal, $name:literal) => {
         $v.push(SubCheck::new(concat!("history/const+dyn+boxed/", $name), $q, const_history::<$m, $n>).tape(1400).thorough(60));
-        $v.push(SubCheck::new(concat!("params/const/", $name), 4, params::const_params::<$m, $n, $w>).tape(8).thorough(1));
+        $v.push(SubCheck::new(concat!("params/const/", $name), 1, params::const_params::<$m, $n, $w>).tape(8).thorough(1));
     };
 }
 
 fn subchecks(_ctx: &Ctx) -> Vec<SubCheck> {
     let mut v = vec![];
-    fixed_subs!(v, 4000, 6000, 20000; (1, 2), (2, 4), (3, 6), (4, 8));
-    fixed_subs!(v, 3000, 3000, 10000; (6, 12), (8, 16));
-    fixed_subs!(v, 1500, 1000, 4000; (16, 32));
-    fixed_subs!(v, 1000, 400, 1500; (32, 64));
-    v.push(SubCheck::new("history/boxed/1..=33", 12000, boxed_history(33)).tape(1400).thorough(60));
+    fixed_subs!(v, 10000, 6000, 30000; (1, 2), (2, 4), (3, 6), (4, 8));
+    fixed_subs!(v, 6000, 3000, 15000; (6, 12), (8, 16));
+    fixed_subs!(v, 3000, 1500, 6000; (16, 32));
+    fixed_subs!(v, 2000, 600, 2500; (32, 64));
+    v.push(SubCheck::new("history/boxed/1..=33", 24000, boxed_history(33)).tape(1400).thorough(60));
     v.push(SubCheck::new("params/boxed/1..=33", 6000, params::boxed_params(33)).tape(400));
-    v.push(SubCheck::new("mul_mod/boxed/1..=33", 8000, direct::mul_mod_boxed(33)).tape(400));
-    for_each_modulus!(const_subs, v, 600,);
+    v.push(SubCheck::new("mul_mod/boxed/1..=33", 16000, direct::mul_mod_boxed(33)).tape(400));
+    for_each_modulus!(const_subs, v, 1500,);
     v
 }
